@@ -22,7 +22,13 @@ FINISH = dict(
          "supersets, subsets of the configured identifiers incl. wildcard, IDN, mixed case, IPv4/IPv6 "
          "textual forms; either file absent or corrupt; renew_delay and random_early_renew incl. 0 and "
          "values beyond the lifetime. The real schedule_renewal result is judged by Spec.C06.holdsOutcome "
-         "(2 s clock slack) and compared with the model's interval. non-trivial = both files present.",
+         "(2 s clock slack) and compared with the model's interval. non-trivial = both files present. "
+         "py/ext/c06x.py: chain files (end-entity first), no-SAN / wildcard-crossing / replaced-name / duplicated "
+         "names, delays and jitters up to 2^64-1 s, file naming (extensions, format, key type, name) with decoy "
+         "files under other namings, empty / directory certificate paths — same judge; and the real daemon's loop "
+         "against the mock CA: fresh certificates (installed or just issued) are not requested again while watched, "
+         "short-lived ones are requested again V-D-[0,R) s after issuance (gap judged by the same op), an unparsable "
+         "file never leads to a request and does not stop a healthy certificate.",
 )
 
 NS = 10 ** 9
@@ -135,6 +141,9 @@ def run(ctx):
                 continue
             good.append(t)
         check(ctx, good)
+        # chains, SAN shapes, huge delays, file naming + decoys, and the daemon's loop (py/ext/c06x.py)
+        from ext import c06x
+        c06x.extend(ctx, helper, root)
         if not ctx.quick():
             # release profile on the overflow rows (the unrepaired code wrapped instead of panicking)
             rel = vlib.build_acmed(release=True)
@@ -223,6 +232,9 @@ def replay(ctx):
     with open(ctx.replay) as f:
         r = json.load(f)
     obj = r.get("replay", r)
+    if str(obj.get("part", "")).startswith("x:"):
+        from ext import c06x
+        return c06x.replay(ctx, obj)
     vlib.build_acmed()
     vlib.build_helper()
     helper = mockca.Helper()
